@@ -64,7 +64,9 @@ func (pf *ProposalFundStore) iterate(fn func(proposalID ProposalID, addr keys.Ad
 			amt := balance.NewAmount(0)
 			err := serialize.GetSerializer(serialize.PERSISTENT).Deserialize(value, amt)
 			if err != nil {
-				return true
+				// a record deleted earlier in this block (the funds of another proposal finalised in the same
+				// block) is still listed, without a value: skip it, do not stop the walk
+				return false
 			}
 			arr := strings.Split(string(key), storage.DB_PREFIX)
 			// key example: propFunds_i_proposalID_fundingAddress
